@@ -40,6 +40,11 @@ pub fn note_current(sys: &System) {
 /// as a VIOLATION line first, so the check has a concrete failing input instead of a bare crash.
 pub fn arm_crash_reporter(property: &'static str) {
     std::panic::set_hook(Box::new(move |info| {
+        // at most three reports per process (a caught panic may repeat thousands of times)
+        static REPORTS: std::sync::atomic::AtomicUsize = std::sync::atomic::AtomicUsize::new(0);
+        if REPORTS.fetch_add(1, std::sync::atomic::Ordering::Relaxed) >= 3 {
+            return;
+        }
         let sys = CURRENT_SYSTEM.with(|c| c.borrow().clone()).unwrap_or_else(|| "null".to_owned());
         let msg = json_escape(&info.to_string());
         println!(
